@@ -4,8 +4,9 @@
    what is yielded, the smoother afterwards (expected tag, out-of-order map), the iterator
    afterwards.  Stdlib only, no axioms. *)
 From Coq Require Import String.
-From Amq Require Import Lib.Base Lib.RsVal Model.Confirm Gen.SrcConfirm.
+From Amq Require Import Lib.Base Lib.RsVal Model.Confirm Spec.Confirm Proofs.Confirm Gen.SrcConfirm.
 Open Scope string_scope.
+Open Scope list_scope.
 Open Scope N_scope.
 
 Definition enc_bool (b : bool) : val := VC (if b then "true" else "false") [].
@@ -122,4 +123,85 @@ Proof.
     rewrite next_source_is_model.
     destruct (next p it) as [[o p'] it'] eqn:En.
     apply IH. exact Hd.
+Qed.
+
+(* ---- a whole call of process as its user runs it: `for c in smoother.process(raw) { .. }` -
+   the iterator pulled until it yields None, then dropped ---- *)
+Fixpoint gpull (fuel : nat) (self : val) : list val * val :=
+  match fuel with
+  | O => ([], self)
+  | S f =>
+      let '(self', o) := gen_Iter_next ext_model ext_st_model self in
+      match o with
+      | VC c [x] => if (c =? "Some")%string then let '(os, s'') := gpull f self' in (x :: os, s'') else ([], self')
+      | _ => ([], self')
+      end
+  end.
+
+Lemma gpull_is_pull_all : forall fuel p it,
+  gpull fuel (enc_self p it) = let '(os, p', it') := pull_all fuel p it in (map enc_out os, enc_self p' it').
+Proof.
+  induction fuel as [|fuel IH]; intros p it; [reflexivity|].
+  cbn [gpull pull_all]. rewrite next_source_is_model.
+  destruct (next p it) as [[[o|] p1] it1]; [|reflexivity].
+  cbn [enc_opt]. cbn [String.eqb Ascii.eqb Bool.eqb]. rewrite IH.
+  destruct (pull_all fuel p1 it1) as [[os p'] it']. reflexivity.
+Qed.
+
+Definition gprocess (fuel : nat) (sm rawv : val) : list val * val :=
+  let '(_, it0) := gen_ConfirmSmoother_process sm rawv in
+  let '(os, it1) := gpull fuel it0 in
+  let '(it2, _) := gen_Iter_drop ext_model ext_st_model (S fuel) it1 in
+  (os, v_field "parent" it2).
+
+(* the number of rounds that is enough, read off the values themselves *)
+Definition gfuel (sm rawv : val) : nat :=
+  match v_field "expected" sm, v_field "out_of_order" sm, rawv with
+  | VN e, VC _ l, VC _ [pl] =>
+      match v_field "delivery_tag" pl with VN t => (N.to_nat (t - e) + length l + 3)%nat | _ => O end
+  | _, _, _ => O
+  end.
+
+Lemma gfuel_enc p r : gfuel (enc_smoother p) (enc_raw r) = fuel_for p r.
+Proof. unfold gfuel, fuel_for. cbn. rewrite map_length. reflexivity. Qed.
+
+(* one raw confirmation consumed completely by the translated code, in any state the smoother can
+   be in after a valid history: what comes out and the smoother afterwards are the model's *)
+Theorem process_call_source_is_model e0 h r outs p :
+  Inv e0 h outs p ->
+  (r_multiple r = false -> forall r', In r' h -> r_multiple r' = false -> r_tag r' <> r_tag r) ->
+  gprocess (gfuel (enc_smoother p) (enc_raw r)) (enc_smoother p) (enc_raw r)
+  = (map enc_out (fst (process p r)), enc_smoother (snd (process p r))).
+Proof.
+  intros Hinv Hnd. rewrite gfuel_enc.
+  pose proof (Inv_to_Mid Hinv Hnd) as M.
+  destruct (pull_all_inv M (fuel_for_enough p r)) as (os & p' & it' & Hpa & Hd & _).
+  unfold gprocess, process. rewrite process_source_is_model, gpull_is_pull_all, Hpa.
+  rewrite drop_source_is_model; rewrite drop_iter_done by exact Hd; [|exact Hd].
+  cbn [fst snd]. destruct p'. reflexivity.
+Qed.
+
+(* whole histories through the translated code *)
+Definition grun_all (sm : val) (h : list raw) : list val * val :=
+  fold_left (fun '(acc, sm) r =>
+               let '(os, sm') := gprocess (gfuel sm (enc_raw r)) sm (enc_raw r) in (acc ++ os, sm'))
+            h ([], sm).
+
+(* C14 AS A THEOREM ABOUT THE TRANSLATED CODE: after EVERY valid history of raw confirmations
+   (each consumed completely), the translated smoother has emitted exactly what the model emits -
+   hence, by C14_exact, the maximal run of covered tags, each once, in order, non-multiple, with
+   the outcome of its first cover - and is in the model's state *)
+Theorem run_all_source_is_model e0 h :
+  singles_distinct h ->
+  grun_all (enc_smoother (new_smoother e0)) h
+  = (map enc_out (fst (run_all (new_smoother e0) h)), enc_smoother (snd (run_all (new_smoother e0) h))).
+Proof.
+  induction h as [|r h IH] using rev_ind; intro Hsd; [reflexivity|].
+  apply singles_distinct_snoc in Hsd as [Hsd Hnd].
+  destruct (run_all_exact e0 Hsd) as (outs & p & Hrun & Hinv).
+  specialize (IH Hsd). rewrite Hrun in IH. cbn [fst snd] in IH.
+  unfold grun_all in *. rewrite fold_left_app, IH. cbn [fold_left].
+  rewrite (process_call_source_is_model Hinv Hnd).
+  rewrite run_all_snoc, Hrun. destruct (process p r) as [os p2]. cbn [fst snd].
+  rewrite map_app. reflexivity.
 Qed.
